@@ -7,7 +7,7 @@ git -C /repo archive HEAD | tar -x -C "$D"
 ( cd "$D" && patch -p1 -s < "$PATCH" ) || { echo "$R patch failed"; rm -rf "$D"; exit 3; }
 cd /verif
 for p in $PROPS; do
-  TLEXPORT_REPO="$D" timeout 1500 ./check $p --no-evidence > /tmp/refeval_${R}_$p.log 2>&1; rc=$?
+  TLEXPORT_REPO="$D" timeout 700 ./check $p --no-evidence > /tmp/refeval_${R}_$p.log 2>&1; rc=$?
   echo "$R $p rc=$rc $(grep -v auto_activate /tmp/refeval_${R}_$p.log | grep '^property' | sed 's/.*: //' | cut -c1-90)"
   grep -v auto_activate /tmp/refeval_${R}_$p.log | grep "^VIOLATION\|^UNDECIDED\|^CHECKER" | cut -c1-260 | sort | uniq -c | head -6
 done
